@@ -1,6 +1,6 @@
 """C18 The IMUL_RCP reciprocal is exact for every divisor."""
 import astq
-from rules import decode, genreset, jit, rtpreserve, rv64, sshash, x86hsem
+from rules import decode, genreset, jit, rtpreserve, rv64, sshash, x86hsem, x86loop
 
 LEVEL = 'other'
 TECHNIQUE = ('control-dependence check of the no-op guard in every engine (decoder path enumeration) + definition check of the power-of-two predicate; IR effect check of the reciprocal routine'
@@ -75,6 +75,7 @@ def run(ctx, R):
     rv64.rule_rvv_rcp(ctx, R, F)
     x86hsem.rule_hsem(ctx, R)
     rtpreserve.rule_a64_rcplit(ctx, R)
+    x86loop.rule_isa_base(ctx, R)
 
 
 def rule_rcp_eval(ctx, R):
